@@ -273,6 +273,7 @@ static void *thr_main(void *a) { struct thr *t = a; static __thread char tag[16]
 static pthread_mutex_t evmu = PTHREAD_MUTEX_INITIALIZER;
 static int at_eos[NSLOT];
 
+static size_t user_cb(void *p, size_t l, size_t c, void *data) { (void)p; *(long *)data += (long)(l * c); return l * c; }
 static void run_cmd(int ntok, char **tok) {
     const char *op = tok[0];
     if(!strcmp(op, "ctx")) { int c = C(1); at_eos[c] = 0; ctxs[c] = zck_create(); ev_begin("ctx"); ev_int("c", c); ev_int("ret", ctxs[c] != NULL); ev_end(); }
@@ -469,6 +470,8 @@ static void run_cmd(int ntok, char **tok) {
         ev_end(); free(x); free(b);
     }
     else if(!strcmp(op, "fetch")) {
+        /* usercb=1: the application's own header / write callbacks are registered on the handle (after the reset, which clears
+         * them); the library's callbacks do their work and then hand the same bytes on; the application's return value is returned */
         /* fetch <d> <c> <Bpath> <limit> <frag> [k=v ...]
          * One round of the documented update loop against an in-process "server" holding B:
          *   zck_dl_reset; range = zck_get_missing_range(ctx, limit); zck_dl_set_range;
@@ -482,7 +485,7 @@ static void run_cmd(int ntok, char **tok) {
          *          part delivers them) */
         int d = C(1), c = C(2); const char *bpath = A(3); int limit = (int)AI(4); long frag = (long)AI(5);
         const char *boundary = "zckBOUNDARYzck"; int quoted = 0, extra = 0, leadcrlf = 1, forcemulti = 0, lower = 0, partend = 0; long corrupt = -1, stop = -1;
-        char cutsbuf[4096] = "";
+        char cutsbuf[4096] = ""; int usercb = 0;
         for(int k = 6; k < ntok; k++) {
             if(!strncmp(tok[k], "boundary=", 9)) boundary = tok[k] + 9;
             else if(!strncmp(tok[k], "quoted=", 7)) quoted = atoi(tok[k] + 7);
@@ -496,10 +499,13 @@ static void run_cmd(int ntok, char **tok) {
             else if(!strcmp(tok[k], "stop=end")) stop = -3;                   /* exactly after the payload of the first part */
             else if(!strncmp(tok[k], "stop=", 5)) stop = atol(tok[k] + 5);
             else if(!strncmp(tok[k], "partend=", 8)) partend = atoi(tok[k] + 8);
+            else if(!strncmp(tok[k], "usercb=", 7)) usercb = atoi(tok[k] + 7);
             else if(!strncmp(tok[k], "cuts=", 5)) snprintf(cutsbuf, sizeof cutsbuf, "%s", tok[k] + 5);
         }
         zckDL *dl = dls[d]; zckCtx *z = ctxs[c]; int fe0 = shim_fired_err;
         zck_dl_reset(dl);
+        long ucb_bytes[2] = {0, 0};
+        if(usercb) { zck_dl_set_header_cb(dl, user_cb); zck_dl_set_header_data(dl, &ucb_bytes[0]); zck_dl_set_write_cb(dl, user_cb); zck_dl_set_write_data(dl, &ucb_bytes[1]); }
         zckRange *r = zck_get_missing_range(z, limit);      /* local: fetch may run in several threads at once (C19) */
         ev_begin("fetch"); ev_int("limit", limit);
         if(!r) { ev_int("ret", 0); ev_end(); }
@@ -566,6 +572,7 @@ static void run_cmd(int ntok, char **tok) {
             ev_raw(",\"framing\":["); for(int q = 0; q < nfr; q++) { char t_[64]; snprintf(t_, sizeof t_, "%s[%zu,%zu]", q ? "," : "", fr_s[q], fr_e[q]); ev_raw(t_); } ev_raw("]");
             ev_int("calls", calls); ev_int("okcalls", okcalls); ev_int("firstfail", firstfail); ev_int("failpos", (long long)failpos); ev_int("delivered", (long long)pos);
             ev_int("err", zck_is_error(z)); ev_valid(z);
+            if(usercb) { ev_int("ucb_hdr", ucb_bytes[0]); ev_int("ucb_body", ucb_bytes[1]); ev_int("ucb_same_range", zck_dl_get_range(dl) == r); }
             ev_int("missing", zck_missing_chunks(z)); ev_int("failed", zck_failed_chunks(z)); ev_int("firederr", shim_fired_err - fe0);
             ev_end();
             free(body);
